@@ -1,6 +1,6 @@
 (* C17 - a reused parser, encoder, iterator or unfolder behaves like a fresh one.
    Statements only; proofs are in Cbor/RoundtripProofs.v. *)
-From SF Require Import Base.Prelude Core.Events Cbor.Enc Cbor.RoundtripProofs Json.Enc Json.EncProofs Ubjson.Enc Ubjson.EncProofs.
+From SF Require Import Base.Prelude Core.Events Cbor.Enc Cbor.RoundtripProofs Json.Enc Json.EncProofs Ubjson.Enc Ubjson.EncProofs Cbor.Parse Cbor.ConformanceProofs Cbor.ComposeProofs.
 
 (* CBOR encoder: completing any well-formed document returns the length stack (the
    encoder's only nesting state) to exactly what it was before, from any state. *)
@@ -33,3 +33,11 @@ Theorem C17_ubj_enc_idle : forall t e i, w_fail (ue_w e) = None ->
   exists e', ubj_run e (flatten t) i = (e', None) /\ ue_len e' = ue_len e.
 Proof. exact C17_ubj_enc_idle_any. Qed.
 Print Assumptions C17_ubj_enc_idle.
+
+(* CBOR parser: after any accepted input (any number of documents, any chunking) the parser
+   is exactly the initial parser again - every field - so the next document is parsed as
+   by a fresh instance. *)
+Theorem C17_cbor_parser_idle : forall cs s p' s', all_bytes (concat cs) = true -> (zlen (concat cs) <=? MaxInt64) = true ->
+  s_fail s = None -> p_writes cparser0 s cs = Ok (p', s', nilE) -> p' = cparser0.
+Proof. intros cs s p' s' H1 H2 H3 H4. exact (proj1 (C17_cbor_parser_idle_chunks cs s p' s' H1 H2 H3 H4)). Qed.
+Print Assumptions C17_cbor_parser_idle.
